@@ -365,6 +365,7 @@ def catalogue(d, thorough):
         add('regex:miss', 'ABCDEFGHI')
         add('regex:miss-short', '12345678')
         add('regex:partial', '1234567890')
+        out.append(('regex:readings', '123456789'))
     return [(l, v) for l, v in out if not (v is None and l != 'absent')]
 
 
@@ -612,6 +613,23 @@ def run_ele(node, ge, v, cs, icvn, ex, q, label, form='E'):
     """level E; returns (outcome label, [(key, msg)])"""
     from mc import impl
     d = defn(ge)
+    if label == 'regex:readings':
+        # "matching the declared pattern" can be read as 'contains a match' or as 'is a match'; whichever reading the
+        # code takes, it must take it for a match preceded by, followed by, and surrounded by other characters alike
+        outs = []
+        for w in ('A' + v, v + 'A', 'A' + v + 'A'):
+            eh = impl.errh_list()
+            try:
+                node.is_valid(mkelem(w, form), eh)
+            except Exception as e:
+                if is_c16(e):
+                    return 'SKIP', []
+                return 'raise', [('C15|element|raises %s@%s' % (type(e).__name__, core.where(e)), 'element %s.is_valid(%r) raised %r' % (d.id, w, e))]
+            outs.append('7' in set(c for (c, m, bv, r) in eh.err_ele))
+        if len(set(outs)) != 1:
+            return 'regex:readings|mixed', [('C15|element|regex|pattern read neither as "contains" nor as "is"',
+                                             'element %s regex %s: code 7 for %r: %r, for %r: %r, for %r: %r' % (d.id, d.regex, 'A' + v, outs[0], v + 'A', outs[1], 'A' + v + 'A', outs[2]))]
+        return 'regex:readings|%s' % ('is' if outs[0] else 'contains'), []
     exp = expect_ele(d, v, cs, icvn, d.ext is not None and d.ext in excl_list(ex), q)
     errh = impl.errh_list()
     elem = mkelem(v, form)
@@ -1025,7 +1043,7 @@ def run(R):
                      'a control character together with another violation: code 6, the length codes 4/5 and a false result are asserted; codes of the later checks (code list, data type, pattern, trailing blanks) are left open',
                      'a date time period whose nearest preceding qualifier is empty or not in the code list of the qualifier node: codes 8/9 neither demanded nor forbidden',
                      'numeric lengths: one leading minus and one point are not counted; values with several signs/points are not in the catalogue',
-                     'regex: a value matching only in part (re.search but not re.fullmatch) may or may not carry code 7',
+                     'regex: a value matching only in part (re.search but not re.fullmatch) may or may not carry code 7, but the same way whether the match is preceded, followed or surrounded by other characters',
                      'an element node handed a multi-component value, and charset settings other than B/E, are outside the quantifier',
                      'at segment level only the errors attributed (by reference designator) to the target child are judged, plus the result flag; a required composite that is all empty: its components may or may not report code 1']
     R.pmap(work, shards)
